@@ -133,21 +133,30 @@ end PCall
 
 /-- **"The values handed to the API are in the XML domain"** (`valueOK`, Model/SerTokens.lean: names are
     NCNames, text / comment / PI / attribute values are XML characters without the forbidden sequences,
-    text is not empty, an `xml:id` value is normalised, a declaration is one the parser would accept):
-    the condition on the ARGUMENTS of an extended call under which — so the conjecture
-    `C01_edited_values_Statement`, Props/C01.lean — an edited tree keeps `valueOK` at every node.  The
-    calls not listed create no value: they move, copy or remove nodes, or concatenate text nodes. -/
+    text is not empty, an `xml:id` value is normalised, a declaration is one the parser would accept),
+    for the interning tables `env` — the tables AT THE TIME OF THE CALL (`Store.argValuesOKAlong`): the
+    condition on the ARGUMENTS of an extended call under which an edited tree keeps `valueOK` at every
+    node (`C01_edited_values`, Props/C01.lean).  The calls not listed create no value: they move, copy or
+    remove nodes, or concatenate text nodes.  `set_data(d)` keeps the target, so its condition is relative
+    to the PI's own value (`Some("")` is stored as `None`); `create_missing_prefixes` generates its
+    declarations itself (NCNames `n0`, `n1`, …, bound to namespaces of registered names). -/
 def Forest.XCall.argValuesOK (env : Env) : Forest.XCall → Prop
   | .newNode v => valueOK env v = true
   | .call (.mapInsert _ _ e) => valueOK env e = true
   | .call (.setText _ s) => valueOK env (.text s) = true
   | .call (.setComment _ s) => valueOK env (.comment s) = true
-  | .call (.setPiData _ d) => ∀ t, valueOK env (.pi t none) = true → valueOK env (.pi t d) = true
-  | .call (.textContentSet _ s) => s = [] ∨ valueOK env (.text s) = true
+  | .call (.setPiData _ d) =>
+    ∀ t d0, valueOK env (.pi t d0) = true → valueOK env (.pi t (match d with | some [] => none | x => x)) = true
+  | .call (.textContentSet _ s) => valueOK env (.text s) = true
   | .call (.elementWrap _ name) => valueOK env (.element name) = true
   | .call (.setElementName _ name) => valueOK env (.element name) = true
   | .cloneWithPrefixes _ order => ∀ b ∈ order, valueOK env (.namespace b.1 b.2) = true
   | _ => True
+
+/-- … for every call of an extended history, each in the tables the store has when it is made. -/
+def Store.argValuesOKAlong (s : Store) : List Forest.XCall → Prop
+  | [] => True
+  | c :: cs => c.argValuesOK s.env ∧ argValuesOKAlong (s.xstep c) cs
 
 namespace PStore
 
